@@ -336,6 +336,9 @@ def run(rep):
     import fftmodel
     rep.guarded("R-C05-fft", fftmodel.rule_conserve, "R-C05-fft")
     rep.floor("R-C05-fft", 6 + 7)
+    import shares
+    shares.step(rep, ("SincFixedIn", "SincFixedOut"), "C01's uniform output grid, 1/ratio input samples apart")
+    shares.provision(rep, ("SincFixedOut",), "a frame that was not supplied is read as stale buffer content")
     rep.floor("R-C01-poly", 1 + 9 + 6)
     rep.floor("R-C01-nodes", 4 + 8)
     rep.floor("R-C01-grid", 7)
